@@ -298,6 +298,11 @@ fn run_status(acc: &mut Acc, tier: Tier) {
     for x in [0u64, 1, 3600] {
         variants.push(AStatus { xfade: x, ..AStatus::base(full) });
     }
+    // elapsed is what the server says, also beyond the total (streams: total 0; hand-over to the next song)
+    for (e, t, d) in [("10.000", "5", "5.000"), ("4242.500", "0", "0.000"), ("5.001", "5", "5.000")] {
+        variants.push(AStatus { elapsed: e, total: t, duration: d, ..AStatus::base(full) });
+        variants.push(AStatus { elapsed: e, total: t, duration: d, ..AStatus::base(full & !(1 << 6)) });
+    }
     for (e, p) in [("", ""), ("x: y", "second partition"), ("\u{e9}", "p")] {
         variants.push(AStatus { error: e, partition: p, ..AStatus::base(full) });
     }
@@ -309,9 +314,9 @@ fn run_status(acc: &mut Acc, tier: Tier) {
     let bad: &[(&str, &[&str])] = &[
         ("volume", &["256", "-1", "x", ""]),
         ("state", &["playing", "", "Play"]),
-        ("repeat", &["2", "true", ""]),
-        ("random", &["2", "x"]),
-        ("consume", &["-1", "yes"]),
+        ("repeat", &["2", "true", "", "oneshot", "01", "1 "]),
+        ("random", &["2", "x", "oneshot", "on"]),
+        ("consume", &["-1", "yes", "2"]),
         ("single", &["2", "one", ""]),
         ("playlist", &["4294967296", "-1", "x"]),
         ("playlistlength", &["18446744073709551616", "x"]),
@@ -571,23 +576,50 @@ fn run_small(acc: &mut Acc) {
             other => report(acc, "list-rejected", format!("[list group 1] {other:?}"), "list-group1", &fields),
         }
     }
-    // grouped by two tags, values in the order passed to group_by
-    for flip in [false, true] {
-        let fields: Fields = vec![f("AlbumArtist", "x"), f("Album", "a"), f("Title", "t1"), f("Title", "t2"), f("Album", "b"), f("Title", "t3"), f("AlbumArtist", "y"), f("Album", "a"), f("Title", "t1")];
-        let want_raw = vec![("t1", "x", "a"), ("t2", "x", "a"), ("t3", "x", "b"), ("t1", "y", "a")];
-        let group = if flip { [Tag::Album, Tag::AlbumArtist] } else { [Tag::AlbumArtist, Tag::Album] };
+    // grouped by two tags, values in the order passed to group_by; with tags the library has a
+    // variant for and tags it has not (all of which are `Tag::Other`)
+    let other = |n: &'static str| Tag::Other(n.into());
+    let triples: Vec<(&str, Tag, &str, Tag, &str, Tag)> = vec![
+        ("Title", Tag::Title, "AlbumArtist", Tag::AlbumArtist, "Album", Tag::Album),
+        ("Mood", other("Mood"), "TitleSort", other("TitleSort"), "ShowMovement", other("ShowMovement")),
+        ("Mood", other("Mood"), "Album", Tag::Album, "TitleSort", other("TitleSort")),
+        ("Title", Tag::Title, "Mood", other("Mood"), "mood", other("mood")),
+    ];
+    for (pn, pt, g1n, g1t, g2n, g2t) in triples {
+        for flip in [false, true] {
+            let fields: Fields = vec![f(g1n, "x"), f(g2n, "a"), f(pn, "t1"), f(pn, "t2"), f(g2n, "b"), f(pn, "t3"), f(g1n, "y"), f(g2n, "a"), f(pn, "t1")];
+            let want_raw = vec![("t1", "x", "a"), ("t2", "x", "a"), ("t3", "x", "b"), ("t1", "y", "a")];
+            let group = if flip { [g2t.clone(), g1t.clone()] } else { [g1t.clone(), g2t.clone()] };
+            acc.replies += 1;
+            acc.checks += 1;
+            acc.nontrivial += 1;
+            match catch(|| c::List::new(pt.clone()).group_by(group.clone()).response(frame_of(&fields))) {
+                Ok(Ok(l)) => {
+                    let got: Vec<(String, [String; 2])> = l.grouped_values().map(|(v, g)| (v.to_string(), g.map(|s| s.to_string()))).collect();
+                    let want: Vec<(String, [String; 2])> = want_raw.iter().map(|(t, aa, al)| (t.to_string(), if flip { [al.to_string(), aa.to_string()] } else { [aa.to_string(), al.to_string()] })).collect();
+                    if got != want {
+                        report(acc, "list-group-value", format!("[list {pn} group {g1n},{g2n}] decoded {got:?}, server sent {want:?}"), "list-group2", &fields);
+                    }
+                }
+                other => report(acc, "list-rejected", format!("[list {pn} group {g1n},{g2n}] {other:?}"), "list-group2", &fields),
+            }
+        }
+    }
+    // grouped by one tag the library has no variant for, listing another such tag
+    {
+        let fields: Fields = vec![f("TitleSort", "k1"), f("Mood", "m1"), f("Mood", "m2"), f("TitleSort", "k2"), f("Mood", "m3")];
         acc.replies += 1;
         acc.checks += 1;
         acc.nontrivial += 1;
-        match catch(|| c::List::new(Tag::Title).group_by(group.clone()).response(frame_of(&fields))) {
+        match catch(|| c::List::new(other("Mood")).group_by([other("TitleSort")]).response(frame_of(&fields))) {
             Ok(Ok(l)) => {
-                let got: Vec<(String, [String; 2])> = l.grouped_values().map(|(v, g)| (v.to_string(), g.map(|s| s.to_string()))).collect();
-                let want: Vec<(String, [String; 2])> = want_raw.iter().map(|(t, aa, al)| (t.to_string(), if flip { [al.to_string(), aa.to_string()] } else { [aa.to_string(), al.to_string()] })).collect();
+                let got: Vec<(String, [String; 1])> = l.grouped_values().map(|(v, g)| (v.to_string(), g.map(|s| s.to_string()))).collect();
+                let want: Vec<(String, [String; 1])> = [("m1", "k1"), ("m2", "k1"), ("m3", "k2")].iter().map(|(v, g)| (v.to_string(), [g.to_string()])).collect();
                 if got != want {
-                    report(acc, "list-group-value", format!("[list group 2] decoded {got:?}, server sent {want:?}"), "list-group2", &fields);
+                    report(acc, "list-group-value", format!("[list Mood group TitleSort] decoded {got:?}, server sent {want:?}"), "list-group1", &fields);
                 }
             }
-            other => report(acc, "list-rejected", format!("[list group 2] {other:?}"), "list-group2", &fields),
+            other => report(acc, "list-rejected", format!("[list Mood group TitleSort] {other:?}"), "list-group1", &fields),
         }
     }
     // listplaylists
